@@ -25,7 +25,7 @@ Theorem complete_restraint_silent fi s atoms : suffix_ok s ->
 Proof.
   intros OK H. unfold reported. induction atoms as [|a r IH]; [reflexivity|].
   cbn [flat_map]. rewrite IH by (intros; apply H; right; assumption). rewrite app_nil_r.
-  specialize (H a (or_introl eq_refl)). destruct a as [| e | name [n|]]; cbn [report_atom]; try reflexivity.
+  specialize (H a (or_introl eq_refl)). destruct a as [| e | name [n|] | name]; cbn [report_atom]; try reflexivity.
   - cbn [must_not_report addressed] in H. destruct H as [_ H]. rewrite (H n (or_introl eq_refl)). reflexivity.
   - cbn [must_not_report addressed] in H. destruct H as [NE H].
     destruct s as [| k | c |]; cbn [residue_numbers has_class orb].
@@ -37,6 +37,10 @@ Proof.
       { clear -H. induction (x :: l) as [|y t IH]; [reflexivity|]. cbn [filter]. rewrite (H y (or_introl eq_refl)). cbn [negb]. apply IH. intros; apply H; right; assumption. }
       rewrite F. reflexivity.
     + cbn [zsum fold_left Z.add Z.ltb]. rewrite (H 0%Z (or_introl eq_refl)). reflexivity.
+  - cbn [must_not_report] in H. unfold all_residues in H.
+    assert (F : filter (fun n => negb (has_atom fi name n)) (map fst (fi_residues fi)) = []).
+    { induction (map fst (fi_residues fi)) as [|y t IHt]; [reflexivity|]. cbn [filter]. rewrite (H y (or_introl eq_refl)). cbn [negb]. apply IHt. intros; apply H; right; assumption. }
+    rewrite F. reflexivity.
 Qed.
 
 (* an atom that exists in none of the addressed residues is reported *)
@@ -44,7 +48,7 @@ Theorem missing_atom_reported fi s a atoms : suffix_ok s -> In a atoms -> must_r
 Proof.
   intros OK I M. unfold reported.
   assert (R : report_atom fi s a <> []).
-  { destruct a as [| e | name [n|]]; cbn [must_report] in M; try contradiction; destruct M as [NE M]; cbn [report_atom addressed] in *.
+  { destruct a as [| e | name [n|] | name]; cbn [must_report] in M; try contradiction; destruct M as [NE M]; cbn [report_atom addressed] in *.
     - rewrite (M n (or_introl eq_refl)). discriminate.
     - destruct s as [| k | c |]; cbn [residue_numbers has_class orb].
       + cbn [zsum fold_left Z.add Z.ltb]. rewrite (M 0%Z (or_introl eq_refl)). discriminate.
@@ -52,7 +56,9 @@ Proof.
         assert (k = 0%Z) by lia. subst k. rewrite (M 0%Z (or_introl eq_refl)). discriminate.
       + destruct (map fst (filter (fun r0 => str_eqb (snd r0) c) (fi_residues fi))) as [|x l] eqn:E; [contradiction|].
         cbn [filter]. rewrite (M x (or_introl eq_refl)). cbn [negb map]. discriminate.
-      + cbn [zsum fold_left Z.add Z.ltb]. rewrite (M 0%Z (or_introl eq_refl)). discriminate. }
+      + cbn [zsum fold_left Z.add Z.ltb]. rewrite (M 0%Z (or_introl eq_refl)). discriminate.
+    - unfold all_residues in *. destruct (map fst (fi_residues fi)) as [|x l]; [contradiction|].
+      cbn [filter]. rewrite (M x (or_introl eq_refl)). cbn [negb map]. discriminate. }
   clear M. induction atoms as [|b r IH]; [destruct I|]. cbn [flat_map]. destruct I as [<- | I].
   - intros E. apply app_eq_nil in E. destruct E as [E _]. contradiction.
   - intros E. apply app_eq_nil in E. destruct E as [_ E]. exact (IH I E).
@@ -63,24 +69,82 @@ Theorem reported_are_absent fi s atoms name n :
   In (name, Some n) (reported fi s atoms) -> has_atom fi name n = false.
 Proof.
   unfold reported. intros I. apply in_flat_map in I. destruct I as (a & _ & I).
-  destruct a as [| e | nm [k|]]; cbn [report_atom] in I; try (destruct I; fail).
+  destruct a as [| e | nm [k|] | nm]; cbn [report_atom] in I; try (destruct I; fail).
   - destruct (has_atom fi nm k) eqn:H; [destruct I|]. destruct I as [E | []]. injection E as -> ->. exact H.
   - destruct (has_class s || Z.ltb 0 (zsum (residue_numbers fi s))).
     + apply in_map_iff in I. destruct I as (m & E & F). injection E as -> ->. apply filter_In in F. destruct F as [_ F].
       apply negb_true_iff in F. exact F.
     + destruct (has_atom fi nm 0); [destruct I | destruct I as [E | []]; discriminate E].
+  - apply in_map_iff in I. destruct I as (m & E & F). injection E as -> ->. apply filter_In in F. destruct F as [_ F].
+    apply negb_true_iff in F. exact F.
 Qed.
 
 Theorem reported_bare_absent fi s atoms name :
   In (name, None) (reported fi s atoms) -> has_atom fi name 0 = false.
 Proof.
   unfold reported. intros I. apply in_flat_map in I. destruct I as (a & _ & I).
-  destruct a as [| e | nm [k|]]; cbn [report_atom] in I; try (destruct I; fail).
+  destruct a as [| e | nm [k|] | nm]; cbn [report_atom] in I; try (destruct I; fail).
   - destruct (has_atom fi nm k); [destruct I | destruct I as [E | []]; discriminate E].
   - destruct (has_class s || Z.ltb 0 (zsum (residue_numbers fi s))).
     + apply in_map_iff in I. destruct I as (m & E & _). discriminate E.
     + destruct (has_atom fi nm 0) eqn:H; [destruct I|]. destruct I as [E | []]. injection E as ->. exact H.
+  - apply in_map_iff in I. destruct I as (m & E & _). discriminate E.
 Qed.
+
+(* The complete characterisation (per-residue reading): a message names (name, residue n) exactly when some item of the
+   restraint asks for that name in residue n and the file has no such atom. *)
+Lemma report_atom_exactly fi s a name n : suffix_ok s ->
+  (exists o, res_of o = n /\ In (name, o) (report_atom fi s a)) <-> (In (name, n) (asked fi s a) /\ has_atom fi name n = false).
+Proof.
+  intros OK. destruct a as [| e | nm [k|] | nm]; cbn [report_atom asked addressed].
+  - split; [intros (o & _ & []) | intros [[] _]].
+  - split; [intros (o & _ & []) | intros [[] _]].
+  - split.
+    + intros (o & E & I). destruct (has_atom fi nm k) eqn:H; [destruct I|]. destruct I as [I | []]. injection I as <- <-.
+      cbn [res_of] in E. subst n. split; [left; reflexivity | exact H].
+    + intros [[I | []] H]. injection I as <- <-. rewrite H. exists (Some k). split; [reflexivity | left; reflexivity].
+  - (* bare name: the keyword decides *)
+    assert (RN : residue_numbers fi s = match addressed fi s None with [] => [0%Z] | l => l end).
+    { destruct s as [| k | c |]; reflexivity. }
+    cbn [addressed] in RN.
+    destruct (has_class s || Z.ltb 0 (zsum (residue_numbers fi s))) eqn:B.
+    + rewrite <- RN. split.
+      * intros (o & E & I). apply in_map_iff in I. destruct I as (m & P & F). injection P as <- <-. cbn [res_of] in E. subst m.
+        apply filter_In in F. destruct F as [F1 F2]. apply negb_true_iff in F2. split; [apply in_map; exact F1 | exact F2].
+      * intros [I H]. apply in_map_iff in I. destruct I as (m & P & I). injection P as P1 P2; subst nm m. exists (Some n). split; [reflexivity|].
+        apply in_map_iff. exists n. split; [reflexivity|]. apply filter_In. split; [exact I | rewrite H; reflexivity].
+    + (* neither class nor positive number: residue 0 *)
+      assert (N0 : residue_numbers fi s = [0%Z]).
+      { destruct s as [| k | c |]; cbn [has_class orb residue_numbers] in *; try reflexivity; [|discriminate B].
+        cbn [zsum fold_left Z.add] in B. cbn [suffix_ok] in OK. apply Z.ltb_ge in B. replace k with 0%Z by lia. reflexivity. }
+      rewrite <- RN, N0. cbn [map]. split.
+      * intros (o & E & I). destruct (has_atom fi nm 0) eqn:H; [destruct I|]. destruct I as [I | []]. injection I as <- <-.
+        cbn [res_of] in E. subst n. split; [left; reflexivity | exact H].
+      * intros [[I | []] H]. injection I as <- <-. rewrite H. exists None. split; [reflexivity | left; reflexivity].
+  - unfold all_residues. split.
+    + intros (o & E & I). apply in_map_iff in I. destruct I as (m & P & F). injection P as <- <-. cbn [res_of] in E. subst m.
+      apply filter_In in F. destruct F as [F1 F2]. apply negb_true_iff in F2. split; [apply in_map; exact F1 | exact F2].
+    + intros [I H]. apply in_map_iff in I. destruct I as (m & P & I). injection P as P1 P2; subst nm m. exists (Some n). split; [reflexivity|].
+      apply in_map_iff. exists n. split; [reflexivity|]. apply filter_In. split; [exact I | rewrite H; reflexivity].
+Qed.
+
+Theorem reported_exactly fi s atoms name n : suffix_ok s ->
+  (exists o, res_of o = n /\ In (name, o) (reported fi s atoms)) <->
+  (exists a, In a atoms /\ In (name, n) (asked fi s a) /\ has_atom fi name n = false).
+Proof.
+  intros OK. unfold reported. split.
+  - intros (o & E & I). apply in_flat_map in I. destruct I as (a & Ia & I). exists a. split; [exact Ia|].
+    apply (report_atom_exactly fi s a name n OK). exists o. split; assumption.
+  - intros (a & Ia & A & H). destruct (proj2 (report_atom_exactly fi s a name n OK) (conj A H)) as (o & E & I).
+    exists o. split; [exact E|]. apply in_flat_map. exists a. split; assumption.
+Qed.
+
+(* non-vacuity: NAME_* with three residues, the atom missing in one of them *)
+Example star_example :
+  let fi := {| fi_atoms := [(lit "C2", 1%Z); (lit "N1", 1%Z); (lit "N1", 2%Z); (lit "C2", 3%Z); (lit "N1", 3%Z)];
+               fi_residues := [(1%Z, lit "TOL"); (2%Z, lit "TOL"); (3%Z, lit "")] |} in
+  reported fi SNone [AStar (lit "N1"); AStar (lit "C2")] = [(lit "C2", Some 2%Z)].
+Proof. vm_compute. reflexivity. Qed.
 
 Example restr_example :
   let fi := {| fi_atoms := [(lit "C1", 0%Z); (lit "C1", 1%Z); (lit "C3", 1%Z); (lit "C1", 2%Z)]; fi_residues := [(1%Z, lit "TOL"); (2%Z, lit "TOL")] |} in
